@@ -7,7 +7,7 @@ use rubato::sinc_interpolator::{ScalarInterpolator, SincInterpolator};
 use rubato::verif_hooks as hooks;
 use rubato::{
     FastFixedIn, FastFixedOut, FftFixedIn, FftFixedInOut, FftFixedOut, PolynomialDegree,
-    ResampleError, Resampler, ResamplerConstructionError, Sample, SincFixedIn, SincFixedOut,
+    ResampleError, Resampler, ResamplerConstructionError, Sample, SincFixedIn, SincFixedOut, VecResampler,
     SincInterpolationParameters, SincInterpolationType, WindowFunction,
 };
 use std::collections::HashMap;
@@ -195,8 +195,8 @@ fn state_line(st: &[u64], float_idx: &[usize]) -> String {
 
 fn print_state<T: Smp>(r: &R<T>) {
     let g = each!(r, x => (
-        x.input_frames_max(), x.input_frames_next(), x.output_frames_max(),
-        x.output_frames_next(), x.output_delay(), x.nbr_channels()));
+        Resampler::input_frames_max(x), Resampler::input_frames_next(x), Resampler::output_frames_max(x),
+        Resampler::output_frames_next(x), Resampler::output_delay(x), Resampler::nbr_channels(x)));
     println!("G {} {} {} {} {} {}", g.0, g.1, g.2, g.3, g.4, g.5);
     match r {
         R::FastIn(x) => {
@@ -343,6 +343,7 @@ struct Ctx<T: Smp> {
     hist: std::fs::File,
     dead: bool,
     fed: Vec<u64>,
+    pending: Vec<u64>,
 }
 
 fn splitmix(state: &mut u64) -> u64 {
@@ -435,14 +436,14 @@ fn expand<T: Smp>(cx: &mut Ctx<T>, line: &str, m: &HashMap<String, String>) -> S
     }
     let r = cx.r.as_ref().unwrap();
     let (imax, inext, omax, onext, nch) = each!(r, x => (
-        x.input_frames_max(), x.input_frames_next(), x.output_frames_max(),
-        x.output_frames_next(), x.nbr_channels()));
+        Resampler::input_frames_max(x), Resampler::input_frames_next(x), Resampler::output_frames_max(x),
+        Resampler::output_frames_next(x), Resampler::nbr_channels(x)));
     if cx.fed.len() < nch + 8 {
         cx.fed.resize(nch + 8, 0);
     }
     let mut out = Vec::new();
     for tok in line.split(' ') {
-        if tok.starts_with("inlen=") || tok.starts_with("outlen=") || tok.starts_with("sig=") {
+        if tok.starts_with("inlen=") || tok.starts_with("outlen=") || tok.starts_with("sig=") || tok.starts_with("adv=") {
             continue;
         }
         out.push(tok.to_string());
@@ -458,9 +459,35 @@ fn expand<T: Smp>(cx: &mut Ctx<T>, line: &str, m: &HashMap<String, String>) -> S
             let mut chs = Vec::new();
             for (c, sp) in specs.iter().enumerate() {
                 let n = resolve_len(sp, inext, imax);
-                let v = gen_signal::<T>(sig, c, cx.fed[c], n);
-                // the stream advances by what the resampler will consume (at most what is supplied)
-                cx.fed[c] += n.min(inext) as u64;
+                // `pad@<len>@<signal>`: the signal for the first <len> frames, zeros afterwards
+                let mut v = if let Some(rest) = sig.strip_prefix("pad@") {
+                    let mut it = rest.splitn(2, '@');
+                    let keeps: Vec<&str> = it.next().unwrap().split('|').collect();
+                    let keep = resolve_len(keeps[c.min(keeps.len() - 1)], inext, imax);
+                    let inner = it.next().unwrap();
+                    let mut w = gen_signal::<T>(inner, c, cx.fed[c], n);
+                    for x in w.iter_mut().skip(keep) {
+                        *x = T::zero();
+                    }
+                    w
+                } else {
+                    gen_signal::<T>(sig, c, cx.fed[c], n)
+                };
+                if n == 0 {
+                    v.clear();
+                }
+                // the stream advances by what the resampler consumes (at most what is supplied),
+                // and only if the call succeeds
+                if cx.pending.len() <= c {
+                    cx.pending.resize(c + 1, 0);
+                }
+                cx.pending[c] = match m.get("adv") {
+                    Some(a) => {
+                        let advs: Vec<&str> = a.split('|').collect();
+                        resolve_len(advs[c.min(advs.len() - 1)], inext, imax).min(inext) as u64
+                    }
+                    None => n.min(inext) as u64,
+                };
                 chs.push(str_samples(&v));
             }
             out.push(format!("in={}", chs.join(";")));
@@ -645,6 +672,7 @@ fn do_op<T: Smp>(cx: &mut Ctx<T>, cmd: &str, line: &str, m: &HashMap<String, Str
     if cx.dead || cx.r.is_none() {
         return;
     }
+    cx.pending.clear();
     let line_owned = expand(cx, line, m);
     let line: &str = &line_owned;
     let m_owned = kv(line);
@@ -654,6 +682,7 @@ fn do_op<T: Smp>(cx: &mut Ctx<T>, cmd: &str, line: &str, m: &HashMap<String, Str
     let r = cx.r.as_mut().unwrap();
     hooks::fft::unit_log_start();
     let want_allocs = m.contains_key("allocs");
+    let succeeded = std::cell::Cell::new(false);
     let outcome = catch_unwind(AssertUnwindSafe(|| -> Result<(), ()> {
         match cmd {
             "PIB" => {
@@ -661,10 +690,15 @@ fn do_op<T: Smp>(cx: &mut Ctx<T>, cmd: &str, line: &str, m: &HashMap<String, Str
                 let mut wo = chans::<T>(get(m, "out"));
                 let mk = mask(get(m, "mask"));
                 let before = alloc_count::events();
-                let res = each!(r, x => x.process_into_buffer(&wi, &mut wo, mk.as_deref()));
+                let res = if m.get("via").map(|v| v == "vec").unwrap_or(false) {
+                    each!(r, x => VecResampler::process_into_buffer(x, &wi, &mut wo, mk.as_deref()))
+                } else {
+                    each!(r, x => Resampler::process_into_buffer(x, &wi, &mut wo, mk.as_deref()))
+                };
                 let after = alloc_count::events();
                 match res {
                     Ok((a, b)) => {
+                        succeeded.set(true);
                         println!("R counts {} {}", a, b);
                         print_chans("O", &wo);
                     }
@@ -677,8 +711,14 @@ fn do_op<T: Smp>(cx: &mut Ctx<T>, cmd: &str, line: &str, m: &HashMap<String, Str
             "PROCESS" => {
                 let wi = chans::<T>(get(m, "in"));
                 let mk = mask(get(m, "mask"));
-                match each!(r, x => x.process(&wi, mk.as_deref())) {
+                let res = if m.get("via").map(|v| v == "vec").unwrap_or(false) {
+                    each!(r, x => VecResampler::process(x, &wi, mk.as_deref()))
+                } else {
+                    each!(r, x => Resampler::process(x, &wi, mk.as_deref()))
+                };
+                match res {
                     Ok(v) => {
+                        succeeded.set(true);
                         println!("R vecs");
                         print_chans("O", &v);
                     }
@@ -693,9 +733,14 @@ fn do_op<T: Smp>(cx: &mut Ctx<T>, cmd: &str, line: &str, m: &HashMap<String, Str
                 };
                 let mut wo = chans::<T>(get(m, "out"));
                 let mk = mask(get(m, "mask"));
-                match each!(r, x => x.process_partial_into_buffer(wi.as_deref(), &mut wo, mk.as_deref()))
-                {
+                let res = if m.get("via").map(|v| v == "vec").unwrap_or(false) {
+                    each!(r, x => VecResampler::process_partial_into_buffer(x, wi.as_deref(), &mut wo, mk.as_deref()))
+                } else {
+                    each!(r, x => Resampler::process_partial_into_buffer(x, wi.as_deref(), &mut wo, mk.as_deref()))
+                };
+                match res {
                     Ok((a, b)) => {
+                        succeeded.set(true);
                         println!("R counts {} {}", a, b);
                         print_chans("O", &wo);
                     }
@@ -709,8 +754,14 @@ fn do_op<T: Smp>(cx: &mut Ctx<T>, cmd: &str, line: &str, m: &HashMap<String, Str
                     Some(chans::<T>(get(m, "in")))
                 };
                 let mk = mask(get(m, "mask"));
-                match each!(r, x => x.process_partial(wi.as_deref(), mk.as_deref())) {
+                let res = if m.get("via").map(|v| v == "vec").unwrap_or(false) {
+                    each!(r, x => VecResampler::process_partial(x, wi.as_deref(), mk.as_deref()))
+                } else {
+                    each!(r, x => Resampler::process_partial(x, wi.as_deref(), mk.as_deref()))
+                };
+                match res {
                     Ok(v) => {
+                        succeeded.set(true);
                         println!("R vecs");
                         print_chans("O", &v);
                     }
@@ -719,7 +770,7 @@ fn do_op<T: Smp>(cx: &mut Ctx<T>, cmd: &str, line: &str, m: &HashMap<String, Str
             }
             "SETRATIO" => {
                 let before = alloc_count::events();
-                let res = each!(r, x => x.set_resample_ratio(getf(m, "x"), get(m, "ramp") == "1"));
+                let res = each!(r, x => Resampler::set_resample_ratio(x, getf(m, "x"), get(m, "ramp") == "1"));
                 let after = alloc_count::events();
                 match res {
                     Ok(()) => println!("R unit"),
@@ -731,7 +782,7 @@ fn do_op<T: Smp>(cx: &mut Ctx<T>, cmd: &str, line: &str, m: &HashMap<String, Str
             }
             "SETREL" => {
                 let before = alloc_count::events();
-                let res = each!(r, x => x.set_resample_ratio_relative(getf(m, "x"), get(m, "ramp") == "1"));
+                let res = each!(r, x => Resampler::set_resample_ratio_relative(x, getf(m, "x"), get(m, "ramp") == "1"));
                 let after = alloc_count::events();
                 match res {
                     Ok(()) => println!("R unit"),
@@ -743,7 +794,7 @@ fn do_op<T: Smp>(cx: &mut Ctx<T>, cmd: &str, line: &str, m: &HashMap<String, Str
             }
             "SETCHUNK" => {
                 let before = alloc_count::events();
-                let res = each!(r, x => x.set_chunk_size(geti(m, "n")));
+                let res = each!(r, x => Resampler::set_chunk_size(x, geti(m, "n")));
                 let after = alloc_count::events();
                 match res {
                     Ok(()) => println!("R unit"),
@@ -755,7 +806,7 @@ fn do_op<T: Smp>(cx: &mut Ctx<T>, cmd: &str, line: &str, m: &HashMap<String, Str
             }
             "RESET" => {
                 let before = alloc_count::events();
-                each!(r, x => x.reset());
+                each!(r, x => Resampler::reset(x));
                 let after = alloc_count::events();
                 println!("R unit");
                 if want_allocs {
@@ -766,6 +817,13 @@ fn do_op<T: Smp>(cx: &mut Ctx<T>, cmd: &str, line: &str, m: &HashMap<String, Str
         }
         Ok(())
     }));
+    if succeeded.get() {
+        for (c, n) in cx.pending.iter().enumerate() {
+            if c < cx.fed.len() {
+                cx.fed[c] += *n;
+            }
+        }
+    }
     let units = hooks::fft::unit_log_take();
     for (i, o) in units.iter() {
         let iv: Vec<T> = i.iter().map(|s| parse_f::<T>(s)).collect();
@@ -778,8 +836,8 @@ fn do_op<T: Smp>(cx: &mut Ctx<T>, cmd: &str, line: &str, m: &HashMap<String, Str
                 let before = alloc_count::events();
                 let r = cx.r.as_ref().unwrap();
                 let _g = each!(r, x => (
-                    x.input_frames_max(), x.input_frames_next(), x.output_frames_max(),
-                    x.output_frames_next(), x.output_delay(), x.nbr_channels()));
+                    Resampler::input_frames_max(x), Resampler::input_frames_next(x), Resampler::output_frames_max(x),
+                    Resampler::output_frames_next(x), Resampler::output_delay(x), Resampler::nbr_channels(x)));
                 let after = alloc_count::events();
                 println!("AG {}", after - before);
             }
@@ -912,6 +970,7 @@ fn run<T: Smp>(lines: &[String], hist: std::fs::File) {
         hist,
         dead: false,
         fed: Vec::new(),
+        pending: Vec::new(),
     };
     for line in lines {
         let line = line.trim();
